@@ -30,6 +30,8 @@ type FaultCase struct {
 	Flags       []string `json:"extra_flags"`
 	// Stale: the -out path lies inside the source package and holds non-compiling content (C15)
 	Stale bool `json:"stale_out_in_package"`
+	// PriorNoop: the -out path already holds this very output in the -fmt noop layout (the code reads the old file)
+	PriorNoop bool `json:"prior_content_is_noop_layout"`
 }
 
 func faultCaseFromModel(m map[string]string, n int) *FaultCase {
@@ -55,6 +57,11 @@ func faultCaseFromModel(m map[string]string, n int) *FaultCase {
 			fc.MkdirFails = true
 		case strings.HasPrefix(k, "fault_stdout_write"):
 			fc.StdoutFails = true
+		}
+	}
+	for k := range m {
+		if strings.HasPrefix(k, "havoc$os.ReadFile") || strings.HasPrefix(k, "havoc$os.Stat") || strings.HasPrefix(k, "havoc$io/ioutil.ReadFile") {
+			fc.PriorNoop = true
 		}
 	}
 	for _, b := range []string{"stub", "skip-ensure", "with-resets"} {
@@ -180,6 +187,14 @@ func (env *Env) runFaultCase(fc *FaultCase) (findings []string, transcript strin
 		}
 		args = append(args, nm)
 	}
+	if fc.PriorNoop && fc.Out && !expectFailEarly(fc) {
+		// first generation in the noop layout; the run under test then regenerates over it
+		pre := osexec.Command(bin, append([]string{"-fmt", "noop"}, args...)...)
+		pre.Dir = cwd
+		pre.Env = cliEnv()
+		pre.Run()
+		outExists = true
+	}
 	before := snapshot(root)
 	cmd := osexec.Command(bin, args...)
 	cmd.Dir = cwd
@@ -254,6 +269,32 @@ func (env *Env) runFaultCase(fc *FaultCase) (findings []string, transcript strin
 			}
 		} else if !fc.StdoutFails && !strings.Contains(stdout.String(), "package ") {
 			findings = append(findings, "C17: successful run without -out printed no Go source")
+		}
+	}
+	// ---- C15/C16/C17: regenerating over earlier output must write what a fresh run prints ----
+	if fc.PriorNoop && fc.Out && exit == 0 && !expectFail {
+		var nargs []string
+		for i := 0; i < len(args); i++ {
+			if args[i] == "-out" {
+				i++
+				continue
+			}
+			if args[i] == "-rm" {
+				continue
+			}
+			nargs = append(nargs, args[i])
+		}
+		ref := osexec.Command(bin, nargs...)
+		ref.Dir = cwd
+		ref.Env = cliEnv()
+		os.Rename(filepath.Join(cwd, outRel), filepath.Join(root, "held.tmp"))
+		want, rerr := ref.Output()
+		os.Rename(filepath.Join(root, "held.tmp"), filepath.Join(cwd, outRel))
+		got, _ := os.ReadFile(filepath.Join(cwd, outRel))
+		if rerr == nil && !bytes.Equal(got, want) {
+			findings = append(findings, "C17: successful run with -out did not leave the complete output: the file differs from what the same run prints")
+			findings = append(findings, "C16: the -out file of a default-formatter run over earlier noop-formatted output is not the gofmt-canonical output")
+			findings = append(findings, "C15: regenerating over earlier output does not give the bytes of a fresh generation")
 		}
 	}
 	// ---- C15: with -rm the result must not depend on what was at the -out path ----
@@ -331,4 +372,8 @@ func faultConfirm(nOf func(ic *IC) int) func(ic *IC, ob *exec.Obligation) *Viola
 		v.Detail = short(tr, 700)
 		return v
 	}
+}
+
+func expectFailEarly(fc *FaultCase) bool {
+	return fc.N < 2 || fc.LoadFails || fc.MockFails || fc.MkdirFails || fc.WriteCase != 0
 }
